@@ -81,7 +81,7 @@ RULE = (
     "the model gets urljoin / is_url / canonicalize_url / PROTOCOL_RE as tables computed with "
     "the real functions), and through the oracle. Order: regression corpus, then documents of 5 anchors "
     "over STRUCTURED URLS (protocol x userinfo x host x port x tail: every factor alone, host x tail, "
-    "userinfo x host, port x host, then seeded products; relative hrefs; the witnesses of KF-C17-3..6), then every "
+    "userinfo x host, port x host, then seeded products; relative hrefs; the witnesses of KF-C17-3..5 and FX-C17-ca9f3e6), then every "
     "document of 1 piece and of 2 pieces over the core inventory (bases rotating), then seeded "
     "random documents of 1..6 pieces over the full inventory x 3 bases. Non-trivial = the "
     "document holds at least one anchor AND (a script block, or a non-ASCII character, or an "
@@ -108,13 +108,14 @@ ASSUMPTIONS = [
 UNPROVED = (
     "'every yielded link is accepted by is_url / should_follow_href' with canonicalize=True is a "
     "theorem about the concrete models (links_are_urls_concrete, links_should_follow_concrete, from "
-    "canon_preserves_is_url) on the class ResolvedInRegion (every resolved href has an ASCII scheme, no "
-    "'[' ']' in its authority, no '@' behind its authority) and for an idna decoder that maps host labels "
+    "canon_preserves_is_url) on the class ResolvedInRegion (every resolved href has an ASCII scheme and "
+    "no '@' behind its authority) and for an idna decoder that maps host labels "
     "to host labels; OUTSIDE that class the clause is FALSE, on the models (theorems "
     "canon_not_preserving_outside_region / _bad_puny) and on the implementation (KF-C17-3 userinfo of the "
     "patterns reaching an '@' behind the authority, KF-C17-4 punycode label decoding to a label with a "
-    "leading / trailing hyphen, KF-C17-5 U+0130 lower-casing to two characters, KF-C17-6 = KF-C01-1 "
-    "brackets in the userinfo; one patch: notes/fixes/links-from-html-rechecks-canonical-url.diff). "
+    "leading / trailing hyphen, KF-C17-5 U+0130 lower-casing to two characters; one patch: "
+    "notes/fixes/links-from-html-rechecks-canonical-url.diff; a fourth class found on the way, brackets in "
+    "the userinfo, was repaired in /repo by ca9f3e6 and needs no hypothesis any more). "
     "Not proved: that the parser models equal CPython's urlsplit / urljoin (sampled), what html.unescape "
     "computes (parameter of part B), the idna codec and the TLD table (shipped)."
 )
@@ -324,8 +325,9 @@ def url_corpus():
     yield url_doc(["http://[::1]/@a.com/..", "http://-.com/@a.com/.."], b0, "KF-C17-3")
     # KF-C17-4: punycode label whose decoding starts / ends with a hyphen
     yield url_doc(["http://xn---a-cja.com/", "http://xn----9fa.com/x"], b0, "KF-C17-4")
-    # KF-C17-6 (= KF-C01-1): brackets in the userinfo, the canonical link does not parse
-    yield url_doc(["http://u[::1%7A]@a.com/"], b0, "KF-C17-6")
+    # FX-C17-ca9f3e6 (was KF-C17-6 = KF-C01-1): brackets in the userinfo, the canonical link did not
+    # parse; canonicalize_url raises ValueError now (the generator ends there)
+    yield url_doc(["http://a.com/before", "http://u[::1%7A]@a.com/", "http://a.com/after"], b0, "FX-C17-ca9f3e6")
     # KF-C17-5: U+0130 lower-cases to two characters, the label outgrows 64
     yield url_doc(["http://" + DOT_I * 40 + ".com/"], b0, "KF-C17-5")
     # near misses that are fine
@@ -1202,7 +1204,7 @@ def kf_dotted_capital_i(case, failure):
 
 
 def kf_canonical_link_unparsable(case, failure):
-    """KF-C17-6 (= KF-C01-1 seen from links_from_html): canonicalize=True; the refused link does not
+    """RETIRED (ca9f3e6). KF-C17-6 (= KF-C01-1 seen from links_from_html): canonicalize=True; the refused link does not
     parse any more (urlsplit raises ValueError: a raw '[' / ']' in the userinfo whose content became
     a bracketed-host look-alike after unquoting), is_url(tld_aware) catches the ValueError and says no"""
     if "canonicalize=True" not in failure:
@@ -1230,8 +1232,8 @@ def in_region(u):
         return False
     after = s[len(scheme) :][3:]
     mt = re.search(r"[/?#]", after)
-    auth, rest = (after[: mt.start()], after[mt.start() :]) if mt else (after, "")
-    return "[" not in auth and "]" not in auth and "@" not in rest
+    rest = after[mt.start() :] if mt else ""
+    return "@" not in rest
 
 
 _label_re = []
@@ -1278,7 +1280,8 @@ def theorem_contradicted(case, failure):
 
 
 # (kf_astral_idn / kf_one_digit_port are retired: repaired in /repo, a failure of these classes is a regression again)
-KF_PREDICATES = [kf_userinfo_crosses_authority, kf_puny_label_hyphen, kf_dotted_capital_i, kf_canonical_link_unparsable]
+# (kf_canonical_link_unparsable, KF-C17-6, is retired too: repaired in /repo by ca9f3e6)
+KF_PREDICATES = [kf_userinfo_crosses_authority, kf_puny_label_hyphen, kf_dotted_capital_i]
 
 
 # ----------------------------------------------------------------------------------------
